@@ -74,6 +74,7 @@ EdgePairs(src, tgt) == {<<src[i], tgt[i]>> : i \in 1 .. Len(src)}
 \* component labels: dense numbering 0..k-1; same label iff connected
 ComponentsOK(src, tgt, n, labels, k) ==
    /\ Len(labels) = n /\ RangeOf(labels) = Range0(k)
-   /\ LET pairs == EdgePairs(src, tgt) IN
-      \A a, b \in Range0(n) : (labels[a + 1] = labels[b + 1]) <=> Connected(n, pairs, a, b)
+   \* two nodes carry the same label iff they are connected (one closure per node, through the canonical quotient map)
+   /\ LET q == QuotMap(n, EdgePairs(src, tgt)) IN
+      \A a, b \in 1 .. n : (labels[a] = labels[b]) <=> (q[a] = q[b])
 =============================================================================
